@@ -110,6 +110,7 @@ def run_full(ctx, st, items, show_unprocessed, final_newline, case):
     ls = lines_of(items, final_newline)
     s.feed(ls)
     exp = expected_items(st, items, show_unprocessed)
+    case = dict(case, expected_items=[[list(w) for w in e] for e in exp])
     per = s.per_read()
     ok = True
     for idx, want in enumerate(exp):
@@ -299,6 +300,16 @@ def run_proc(ctx, spec):
 def replay(ctx, case):
     env.setup()
     ls = case['lines']
+    if case.get('expected_items') and 'cut_lines' not in case:
+        s = Session(show_unprocessed=not case.get('supress'))
+        s.feed(ls)
+        per = s.per_read()
+        for idx, want in enumerate(case['expected_items']):
+            got = [p for k, p in per.get(idx, []) if k == 'out' and outline.parse_line(p)['kind'] != 'sep']
+            ctx.ev()
+            if len(got) != len(want) or not all(item_matches(tuple(w), g) for w, g in zip(want, got)):
+                ctx.violation('conservation', 'input line %d %r owes %r, produced %r' % (idx, ls[idx][:120], [w[:2] for w in want], [g[:160] for g in got]), case)
+                break
     if 'cut_lines' in case:
         ls = ls[:case['cut_lines']] + ([ls[case['cut_lines']][:case['cut_chars']]] if 'cut_chars' in case else [])
     s = Session(show_unprocessed=not case.get('supress'))
